@@ -20,6 +20,8 @@ type SuiteSel struct {
 	Integ int `json:"integ"`
 	Prf   int `json:"prf"`
 	DH    int `json:"dh"`
+	// ViaProposal: the algorithm descriptors are obtained from transforms (DecodeTransform) rather than by name (StrToType)
+	ViaProposal bool `json:"via_proposal,omitempty"`
 }
 
 func (s SuiteSel) Ref() ref.Suite { return ref.Suite{Encr: ref.Encrs[s.Encr], Integ: ref.Integs[s.Integ]} }
@@ -53,6 +55,17 @@ func NewSA(s SuiteSel, k KeySet) (*security.IKESAKey, error) {
 		IntegInfo: integ.StrToType(ref.Integs[s.Integ].Name),
 		PrfInfo:   prf.StrToType(ref.Prfs[s.Prf].Name),
 		DhInfo:    dh.StrToType(ref.DHs[s.DH].Name),
+	}
+	if s.ViaProposal && sa.EncrInfo != nil && sa.IntegInfo != nil && sa.PrfInfo != nil && sa.DhInfo != nil {
+		// the other way a caller obtains the descriptors: from the transforms of a negotiated proposal
+		et, err := encr.ToTransform(sa.EncrInfo)
+		if err != nil {
+			return nil, fmt.Errorf("bridge: encr.ToTransform: %w", err)
+		}
+		sa.EncrInfo = encr.DecodeTransform(et)
+		sa.IntegInfo = integ.DecodeTransform(integ.ToTransform(sa.IntegInfo))
+		sa.PrfInfo = prf.DecodeTransform(prf.ToTransform(sa.PrfInfo))
+		sa.DhInfo = dh.DecodeTransform(dh.ToTransform(sa.DhInfo))
 	}
 	if sa.EncrInfo == nil || sa.IntegInfo == nil || sa.PrfInfo == nil || sa.DhInfo == nil {
 		return nil, fmt.Errorf("bridge: an advertised algorithm name is unknown to StrToType (%+v)", s)
